@@ -147,6 +147,24 @@ class C10Oracle(Oracle):
                             bad.append(("lookup-%s:%s:%s:%s:%s" % (kindofmiss, ck, key, origin, pol),
                                         "%s(%s, %r, key=%r) returned %d element(s), a scan finds %d"
                                         % (getter, engine_a.ops._fmt(i), v, key, len(got), len(want))))
+        # the same from the roots above the parent: a library or netlist asked for ports / cables /
+        # instances by exact name returns the children of *every* definition below it
+        for i in range(len(w)):
+            if w.kind[i] not in "NL":
+                continue
+            root = w[i]
+            defs = [d for l in (root.libraries if w.kind[i] == "N" else [root]) for d in l.definitions]
+            for ck, lst, getter in CHILDREN["D"]:
+                for v in VALUES[:3]:
+                    want = set(id(c) for d in defs for c in getattr(d, lst) if ".NAME" in c and c[".NAME"] == v)
+                    try:
+                        got = [id(x) for x in getattr(root, getter)(v)]
+                    except Exception as e:
+                        bad.append(("lookup-raised:%s:from-%s" % (ck, w.kind[i]), "%s %r: %s" % (getter, v, type(e).__name__)))
+                        continue
+                    if len(got) != len(set(got)) or set(got) != want:
+                        bad.append(("lookup-from-above-differs:%s:from-%s:%s" % (ck, w.kind[i], pol),
+                                    "%s(%s, %r) returned %d element(s), a scan over all definitions finds %d" % (getter, engine_a.ops._fmt(i), v, len(got), len(want))))
         return bad
 
     def pre(self, w, ev):
